@@ -82,9 +82,10 @@ func c02Frames() []model.Frame {
 		ints("i", -3, 2, math.MaxInt64, math.MinInt64, 0, 4), ints("i2", 2, -3, math.MinInt64, math.MaxInt64, 0, 4),
 		floats("f", math.Copysign(0, -1), math.Inf(1), math.Inf(-1), 2, 0.5, nan), floats("f2", 0, math.Inf(1), 2, math.Inf(-1), nan, nan),
 		bools("b", false, false, true, true, false, true), bools("b2", false, true, true, false, false, true),
-		strs("s", model.String, "a", "ab", "", "B", "\u00e4", "a"), strs("s2", model.String, "ab", "a", N, "b", "\u00e4", "a"),
+		// "\u0131x", "A\u017f": the first rune that changes under upper-casing also changes its UTF-8 width
+		strs("s", model.String, "a", "ab", "", "B", "\u00e4", "\u0131x"), strs("s2", model.String, "ab", "a", N, "b", "\u00e4", "A\u017f"),
 		strs("e", model.Enum, "z", "x", "y", N, "z", "x"), strs("e2", model.Enum, "x", "x", N, "y", "z", "z"),
-		derived("d", "q", "q", N, "p", "p", "r"),
+		derived("d", "q", "q", N, "p", "p", "\u017fr"),
 		ints("id", 0, 1, 2, 3, 4, 5),
 	}}
 	return []model.Frame{f0, f1, f2, f3, f4}
@@ -218,7 +219,7 @@ func c02Leaves() []model.Leaf {
 			add(l)
 		}
 		for _, cmp := range []string{"like", "ilike"} {
-			for _, p := range []string{consts[0], "%", "%" + consts[2], "A%", "X%", ".*"} {
+			for _, p := range []string{consts[0], "%", "%" + consts[2], "A%", "X%", ".*", "\u0131X", "a\u017f%", "%\u017fR"} {
 				l := lf(col, cmp, "string")
 				l.S = p
 				add(l)
